@@ -90,19 +90,19 @@ def judge_grammar(ctx, header, size, specs):
     return True
 
 
-def judge_any(ctx, header, size):
+def judge_any(ctx, header, size, tag="|non-grammar"):
     """every string: reject with 400/416 or canonical list"""
     got, val = call(header, size)
     ctx.mon("reject-or-canonical")
     case = {"header": header if len(header) < 300 else header[:300] + f"...(+{len(header) - 300})", "size": size}
     if got == "contract":
-        ctx.violation(f"non-canonical|{val.split(':', 1)[0]}|non-grammar", case, val)
+        ctx.violation(f"non-canonical|{val.split(':', 1)[0]}{tag}", case, val)
     elif got == "exc":
         ctx.violation(f"exception|{val}", case, f"parse_range raised {val}")
     elif got == "ok":
         prob = canonical_problem(val, size)
         if prob:
-            ctx.violation(f"non-canonical|{prob}|non-grammar", case, repr(val))
+            ctx.violation(f"non-canonical|{prob}{tag}", case, repr(val))
     elif got == "416-bad-content-range":
         ctx.violation("416-content-range-wrong", case, repr(val))
 
@@ -127,7 +127,7 @@ def run(ctx):
         specs = tokenize(h)
         if specs is not None:
             judge_grammar(ctx, h, s, specs)
-        judge_any(ctx, h, s)
+        judge_any(ctx, h, s, "" if specs is not None else "|non-grammar")
         ctx.case((h, s))
     ctx.sample("regression-seed", {"header": REGRESSION[1][0], "size": REGRESSION[1][1]})
 
@@ -213,7 +213,7 @@ def run(ctx):
         sp = tokenize(header)
         if sp is not None:
             judge_grammar(ctx, header, size, sp)
-        judge_any(ctx, header, size)
+        judge_any(ctx, header, size, "" if sp is not None else "|non-grammar")
         ctx.case((header, size))
         if i < 2:
             ctx.sample("arbitrary-text", {"header": header, "size": size})
@@ -226,6 +226,6 @@ def replay(ctx, case):
     sp = tokenize(h)
     if sp is not None:
         judge_grammar(ctx, h, s, sp)
-    judge_any(ctx, h, s)
+    judge_any(ctx, h, s, "" if sp is not None else "|non-grammar")
     ctx.case((h, s))
     print("replayed", case, "->", call(h, s), "model:", resolve(sp, s) if sp else "non-grammar")
